@@ -608,6 +608,7 @@ func propC15(c *Ctx) {
 	c.ruleCollectBeforeUse()
 	c.ruleNoEagerCompile()
 	c.ruleStatefulInBuild()
+	c.ruleSymmetricRegistry("C15-SYMMETRIC-REGISTRY")
 	c.ruleRulesBeforeLoad()
 	c.ruleMemoCoverage("C15-MEMO-KEY-COVERS")
 	c.ruleFirstByteTables("C15-KEYWORD-PREFILTER")
@@ -1438,4 +1439,140 @@ func returnsFalse(pk *packages.Package, list []ast.Stmt) bool {
 	}
 	tv := pk.TypesInfo.Types[ret.Results[0]]
 	return tv.Value != nil && tv.Value.String() == "false"
+}
+
+// ---------- a registry that is compared against is also entered ----------
+
+// ruleSymmetricRegistry: some checks compare a directive with what the directives before it have left in a map of the
+// core (similar paths, paths already used, ...) and then leave their own entry. The verdict "these two conflict" is
+// independent of the order of the two blocks only if everyone who compares also enters. For every map field of the
+// core and every handler of the dispatch table: reaching a lookup of the map without reaching a store into it, while
+// another handler does both, is a one-directional check.
+func (c *Ctx) ruleSymmetricRegistry(rule string) {
+	r := c.R
+	r.Rule(rule, "for every map field of core.JApiCore that some handler of the dispatch table both looks up and stores into (a check-and-register registry filled while the catalog is built): every handler that reaches a lookup of it also reaches a store into it (call graph of the library from the handler) - a handler that only compares makes the conflict between two blocks depend on which of them comes first", 1)
+	disp := c.dispatchTable()
+	tn := c.P.LookupType("core", "JApiCore")
+	if len(disp) < 10 || tn == nil {
+		r.Undecided(rule, "anchor", "dispatch table / core.JApiCore not found", "")
+		return
+	}
+	st, ok := tn.Type().Underlying().(*types.Struct)
+	if !ok {
+		r.Undecided(rule, "anchor", "core.JApiCore is not a struct", "")
+		return
+	}
+	var maps []*types.Var
+	for i := 0; i < st.NumFields(); i++ {
+		if _, isMap := st.Field(i).Type().Underlying().(*types.Map); isMap {
+			maps = append(maps, st.Field(i))
+		}
+	}
+	looks, stores := map[*types.Var]map[*types.Func]bool{}, map[*types.Var]map[*types.Func]bool{}
+	for _, f := range c.libFns() {
+		inspectWithStack(f.Decl.Body, func(nd ast.Node, stack []ast.Node) bool {
+			ix, ok := nd.(*ast.IndexExpr)
+			if !ok {
+				return true
+			}
+			fv := fieldSel(f.Pkg, ix.X)
+			if fv == nil {
+				return true
+			}
+			isStore := false
+			if len(stack) > 0 {
+				if as, isAs := stack[len(stack)-1].(*ast.AssignStmt); isAs {
+					for _, l := range as.Lhs {
+						if l == ast.Expr(ix) {
+							isStore = true
+						}
+					}
+				}
+			}
+			m := looks
+			if isStore {
+				m = stores
+			}
+			if m[fv] == nil {
+				m[fv] = map[*types.Func]bool{}
+			}
+			m[fv][f.Obj] = true
+			return true
+		})
+	}
+	var kinds []string
+	for k := range disp {
+		kinds = append(kinds, k)
+	}
+	sort.Strings(kinds)
+	reach := map[*types.Func]map[*types.Func]bool{}
+	for _, k := range kinds {
+		h := disp[k]
+		if reach[h] != nil {
+			continue
+		}
+		reach[h] = map[*types.Func]bool{}
+		if hf := c.fnOf(h); hf != nil {
+			for _, g := range c.reachableAcrossLib(hf) {
+				reach[h][g.Obj] = true
+			}
+		}
+	}
+	n := 0
+	for _, m := range maps {
+		if len(looks[m]) == 0 || len(stores[m]) == 0 {
+			continue
+		}
+		var both, only []string
+		seenH := map[*types.Func]bool{}
+		for _, k := range kinds {
+			h := disp[k]
+			if seenH[h] {
+				continue
+			}
+			seenH[h] = true
+			l, s := false, false
+			for g := range reach[h] {
+				if looks[m][g] {
+					l = true
+				}
+				if stores[m][g] {
+					s = true
+				}
+			}
+			if l && s {
+				both = append(both, prog.FuncName(h))
+			} else if l {
+				only = append(only, prog.FuncName(h))
+			}
+		}
+		if len(both) == 0 {
+			continue
+		}
+		n++
+		if len(only) == 0 {
+			r.Ok(rule, "registry "+m.Name(), fmt.Sprintf("%d handlers compare with it and enter it", len(both)), "")
+			continue
+		}
+		for _, h := range only {
+			r.Bad(rule, "registry "+m.Name()+" | "+h, fmt.Sprintf("the handler looks %s up but never stores into it, while %v do both: a conflict between a block handled here and a block handled there is found only when this one comes second", m.Name(), both), c.pos(c.fnOf(disp[kindOfHandler(disp, h)]).Decl.Pos()))
+		}
+	}
+	if n == 0 {
+		r.Undecided(rule, "sites", "no check-and-register map found among the fields of core.JApiCore (similarPaths on the pinned tree)", "")
+	}
+}
+
+func kindOfHandler(disp map[string]*types.Func, name string) string {
+	var ks []string
+	for k := range disp {
+		ks = append(ks, k)
+	}
+	sort.Strings(ks)
+	for _, k := range ks {
+		if prog.FuncName(disp[k]) == name {
+			return k
+		}
+	}
+	return ""
 }
